@@ -18,6 +18,9 @@ RULE = ("random step sets (subsets of [-9,9] and [-40,40], 0..7 steps, straddlin
         "2.0, True and 1), fractional floats, nan/inf, strings, None elements, unsupported top-level "
         "types (None, str, float, tuple, set, range, dict, Series, 0-d / 2-d arrays), non-bool "
         "is_relative.  check_fh on raw input and on existing horizons, both enforce_relative values. "
+        "Array dtype stream: the same integers as a numpy array of int8 / int16 / int32 / uint8 / uint16 "
+        "/ uint32 / uint64 (int64 control), steps at the edge of the dtype's range or (unsigned) small, "
+        "with a cutoff that takes cutoff + steps / values - cutoff / steps - 1 out of that range.  "
         "non-trivial = accepted horizon with >= 2 steps and a cutoff given, or a rejection of a "
         "malformed input; distinct = distinct canonical JSON case")
 TRUSTED = [
@@ -28,7 +31,9 @@ TRUSTED = [
     "(coerce_num), Index.nunique (dedup), Index.sort_values (isort), RangeIndex contents (pyrange), "
     "index[bool mask] (select), sum(mask) (count_true), index +/- int, index <= 0 / > 0 as "
     "element-wise maps, delegated __len__/__sub__ of ForecastingHorizon; all over unbounded Z "
-    "(int64 wrap-around is outside the model: generated values stay below 2^31)",
+    "(int64 wrap-around is outside the model: generated values stay below 2^33; wrap-around in a "
+    "NARROWER or unsigned dtype is inside the property - the steps are integers whatever array dtype "
+    "carried them - and is generated, see _dtype_case)",
     "isinstance(x, pd.DatetimeIndex / pd.PeriodIndex / pd.Timestamp / pd.Period) is taken to be False "
     "(integer horizons and integer cutoffs only): those branches are pruned by the translator",
 ]
@@ -413,6 +418,89 @@ def _float_boundary_case(rng):
     return case
 
 
+DTYPE_LIMITS = {"int8": (-2 ** 7, 2 ** 7 - 1), "int16": (-2 ** 15, 2 ** 15 - 1),
+                "int32": (-2 ** 31, 2 ** 31 - 1), "int64": (-2 ** 63, 2 ** 63 - 1),
+                "uint8": (0, 2 ** 8 - 1), "uint16": (0, 2 ** 16 - 1), "uint32": (0, 2 ** 32 - 1),
+                "uint64": (0, 2 ** 64 - 1)}
+NARROW_DTYPES = ["int8", "int8", "int16", "int32", "uint8", "uint8", "uint16", "uint32", "uint64",
+                 "uint64", "int64"]
+
+
+def _dtype_case(rng, dt=None, mode=None, rel=None):
+    """Integer steps handed over as a numpy array whose integer dtype is NOT the default one: the
+    steps are the integers the array holds, whatever width / signedness carried them, so every law
+    holds over Z.  Steps sit at the edge of the dtype's range (cutoff + steps, values - cutoff leave
+    it) or, for unsigned dtypes, are small with a cutoff that takes the result below zero (a
+    relative horizon with a negative cutoff, an absolute one at or before the cutoff, step 0 in an
+    indexer); plus controls that stay inside the range.  The model and the oracle are unchanged:
+    these are new concrete encodings of the `IArr [NInt ..]` inputs."""
+    dt = dt or rng.choice(NARROW_DTYPES)
+    lo, hi = DTYPE_LIMITS[dt]
+    unsigned = lo == 0
+    rel = (rng.random() < 0.5) if rel is None else rel
+    modes = ["inside"]
+    if dt not in ("int64", "uint64"):
+        modes += ["edge", "edge", "edge"]
+    if unsigned:
+        modes += ["below-zero", "below-zero", "below-zero"]
+    mode = mode or rng.choice(modes)
+    k = rng.choice([1, 2, 2, 3, 4])
+    if mode == "edge":
+        side_hi = unsigned or rng.random() < 0.6
+        pool = range(hi - 14, hi + 1) if side_hi else range(lo, lo + 15)
+        steps = rng.sample(pool, k)
+        if rng.random() < 0.3:      # one ordinary small step among them
+            steps.append(rng.randint(max(lo, -9), 9))
+        # relative: absolute = cutoff + steps; absolute: relative = values - cutoff
+        sign = 1 if rel == side_hi else -1
+        if rng.random() < 0.15:
+            sign = -sign            # control: moves inwards
+        c = sign * rng.choice([1, 2, rng.randint(3, 60), rng.randint(3, 60)])
+    elif mode == "below-zero":
+        steps = rng.sample(range(0, 31), k)
+        if rng.random() < 0.3 and 0 not in steps:
+            steps[0] = 0
+        if rel:
+            c = rng.choice([-rng.randint(1, 60), -rng.randint(1, 60), rng.randint(0, 20)])
+        else:
+            c = rng.choice([max(steps), max(steps) + rng.randint(1, 30), rng.choice(steps),
+                            min(steps) + 1, rng.randint(0, 60)])
+    else:
+        steps = rng.sample(range(max(lo, -9), 10), k)
+        c = rng.randint(-50, 50)
+    order = rng.random()
+    if order < 0.4:
+        steps = sorted(steps)
+    elif order < 0.6:
+        steps = sorted(steps, reverse=True)
+    dup = rng.random() < 0.1 and len(steps) >= 2
+    if dup:
+        steps = steps + [rng.choice(steps)]
+    case = {"container": "array", "dtype": dt, "values": [["i", v] for v in steps], "rel": rel,
+            "cutoff": c,
+            "cutoff2": rng.choice([None, -c, c + rng.choice([-1, 1, 2]), rng.randint(-50, 50)]),
+            "np_cutoff": rng.random() < 0.25, "start": rng.randint(-10, 10)}
+    if rng.random() < 0.1:
+        case.update({"kind": "check_fh", "why": "duplicate" if dup else "valid",
+                     "raw": rng.random() < 0.5 or dup, "enforce": rng.random() < 0.4})
+        if case["raw"]:
+            case["rel"] = True
+    else:
+        case.update({"kind": "malformed" if dup else "fh", "why": "duplicate" if dup else "valid"})
+    return case
+
+
+def _dtype_fixed(rng):
+    out = []
+    for dt in ("int8", "int16", "int32", "uint8", "uint16", "uint32", "uint64"):
+        for rel in (True, False):
+            if dt != "uint64":
+                out.append(_dtype_case(rng, dt, "edge", rel))
+            if DTYPE_LIMITS[dt][0] == 0:
+                out.append(_dtype_case(rng, dt, "below-zero", rel))
+    return out
+
+
 def gen_cases(rng, tier):
     cases = []
     nv, nm, nc = (430, 150, 90) if tier == "quick" else (8000, 2000, 1000)
@@ -454,6 +542,10 @@ def gen_cases(rng, tier):
                     c["dtype"] = "int64"
                 c.update(_common(rng, sorted(set(steps)), rel))
                 cases.append(c)
+    # integer dtype of array inputs (after the older streams)
+    for _ in range(140 if tier == "quick" else 3000):
+        cases.append(_dtype_case(rng))
+    cases += _dtype_fixed(rng)
     if tier == "thorough":
         cases += exhaustive_cases()
     return cases
@@ -961,6 +1053,8 @@ def distribution(cases, results):
         acc = "rejected" if "err" in o else "accepted"
         d["%s:%s" % (c["kind"], acc)] += 1
         d["container:%s" % c["container"]] += 1
+        if c["container"] == "array":
+            d["array-dtype:%s" % c.get("dtype", "int64")] += 1
         if c["kind"] == "malformed":
             d["malformed:%s:%s" % (c["why"], acc)] += 1
         if c["kind"] == "fh" and "self" in o:
